@@ -8,7 +8,7 @@
    as it is; where the unchanged code violates a clause the clause is stated in full, refuted by a
    witness, and the strongest true statement is proved with the excluded class as a hypothesis. *)
 From Coq Require Import String Permutation Sorting.Sorted.
-From PDV Require Import lib.Base lib.C12_Order gen.Gen_C13 model.C13_Rules proof.C13_RulesProof proof.C13_Skel.
+From PDV Require Import lib.Base lib.C12_Order gen.Gen_C13 model.C13_Rules proof.C13_RulesProof proof.C13_UpdateProof proof.C13_Skel.
 Local Open Scope list_scope.
 
 (* ---------- Part 1: the key-range index ---------- *)
@@ -19,10 +19,7 @@ Theorem C13_rules_by_key_exact :
   forall rules rl k, wf_rules rules -> build_rule_list rules = inr rl ->
     StronglySorted rule_lt (get_rules_by_key rl k) /\
     (forall y, In y (get_rules_by_key rl k) <-> In y rules /\ covers y k = true).
-Proof.
-  intros rules rl k Hwf H. destruct (build_ok rules rl Hwf H) as (A & B & C).
-  exact (rules_by_key_exact_pf rules rl A B C k).
-Qed.
+Proof. intros rules rl k; exact (rules_by_key_exact_build rules rl k). Qed.
 
 (* compareRule is the documented order: group index, group id, index, id *)
 Theorem C13_rule_order_documented :
@@ -30,16 +27,7 @@ Theorem C13_rule_order_documented :
     (group_index a < group_index b)%Z \/ (group_index a = group_index b /\
       (key_lt (r_gid a) (r_gid b) \/ (r_gid a = r_gid b /\
         ((r_index a < r_index b)%Z \/ (r_index a = r_index b /\ key_lt (r_id a) (r_id b)))))).
-Proof.
-  intros a b. unfold rule_lt, compare_rule, key_lt.
-  assert (L : forall c d, lexc c d = Lt <-> c = Lt \/ (c = Eq /\ d = Lt)).
-  { intros c d. destruct c; cbn; split; intros H; auto; try discriminate.
-    - destruct H as [H|[_ H]]; [discriminate|exact H].
-    - destruct H as [H|[H _]]; discriminate. }
-  assert (KE : forall x y, key_cmp x y = Eq <-> x = y).
-  { intros x y. split; [apply key_cmp_eq|intros ->; apply key_cmp_refl]. }
-  rewrite !L, !Z.compare_lt_iff, !Z.compare_eq_iff, !KE. tauto.
-Qed.
+Proof. exact rule_order_documented_pf. Qed.
 
 (* a region is given the rules of its segment after rule and group override (prepareRulesForApply of
    the rules covering its start key) if no segment boundary lies strictly inside it, and none otherwise *)
@@ -53,20 +41,14 @@ Theorem C13_apply_rules_for_region :
     | None =>
         get_rules_by_key rl s = [] \/ (exists k, boundary rules k /\ key_lt s k /\ (e = [] \/ key_lt k e))
     end.
-Proof.
-  intros rules rl s e Hwf H. destruct (build_ok rules rl Hwf H) as (A & B & C).
-  exact (apply_region_exact_pf rules rl A B C s e).
-Qed.
+Proof. exact apply_region_exact_build. Qed.
 
 (* the split keys reported for (s, e) are exactly the segment boundaries strictly inside it, ascending *)
 Theorem C13_split_keys_exact :
   forall rules rl s e, wf_rules rules -> build_rule_list rules = inr rl ->
     StronglySorted key_lt (get_split_keys rl s e) /\
     (forall k, In k (get_split_keys rl s e) <-> boundary rules k /\ key_lt s k /\ (e = [] \/ key_lt k e)).
-Proof.
-  intros rules rl s e Hwf H. destruct (build_ok rules rl Hwf H) as (A & B & C).
-  exact (split_keys_exact_pf rules rl A B C s e).
-Qed.
+Proof. exact split_keys_exact_build. Qed.
 
 (* the override loop = "drop everything before the last overriding group, and inside each remaining
    group everything before its last overriding rule" *)
@@ -111,10 +93,7 @@ Proof. exact covered_above_first_boundary. Qed.
 Corollary C13_accepted_covers_every_key_when_a_rule_starts_at_the_empty_key :
   forall rules rl k y, wf_rules rules -> build_rule_list rules = inr rl -> In y rules -> r_start y = [] ->
     get_rules_by_key rl k <> [] /\ check_apply_rules (prepare_rules_for_apply (get_rules_by_key rl k)) = None.
-Proof.
-  intros rules rl k y Hwf H Hy Hs. apply (covered_above_first_boundary rules rl k Hwf H).
-  exists []. split; [exists y; split; [exact Hy|left; symmetry; exact Hs]|apply nil_least].
-Qed.
+Proof. exact covered_when_rule_starts_at_empty_key. Qed.
 
 (* ---------- Part 2: updates ---------- *)
 
@@ -164,6 +143,19 @@ Theorem C13_rejected_update_changes_nothing_partial :
     try_commit m s p order f = (m', s', Some e, ok) -> m' = m.
 Proof. exact failed_update_without_group_change. Qed.
 
+(* accepted updates are complete and durable: in every history that starts PD on an empty storage and
+   then issues updates of any kind without storage faults (accepted or rejected, retries included), the
+   storage holds exactly the served rule contents and the served non-default groups after every step *)
+Theorem C13_storage_mirrors_served :
+  forall mr ups, forallb fault_free_update ups = true ->
+    match st_live (run_state step init_state (ORestart mr :: ups)) with
+    | Some m => let s := st_store (run_state step init_state (ORestart mr :: ups)) in
+                s_rules s = map_vals sv (c_rules (m_conf m)) /\
+                s_groups s = filter nd (c_groups (m_conf m))
+    | None => True
+    end.
+Proof. exact storage_mirrors_served_pf. Qed.
+
 (* still to prove (Pass B): stated, not dropped *)
 (* after every accepted update of a fault-free history a restarted PD serves exactly what is served *)
 Definition C13_accepted_update_reload_equal_todo : Prop :=
@@ -209,3 +201,4 @@ Print Assumptions C13_accepted_covers_every_key_partial.
 Print Assumptions C13_rejected_update_changes_nothing_refuted.
 Print Assumptions C13_failed_update_keeps_served.
 Print Assumptions C13_rejected_update_changes_nothing_partial.
+Print Assumptions C13_storage_mirrors_served.
